@@ -7,7 +7,7 @@ import time
 from .. import obs as O
 from .. import sgr_model as M
 from ..gen import Exec, HistoryGen
-from ..monitor import Contract, Call, StepBudgetExceeded  # noqa: F401
+from ..monitor import Contract, Call, StepBudgetExceeded, CaseTimeout  # noqa: F401
 
 FLAG_COMBOS = [(o, rs, re_) for o in (True, False) for rs in (False, True) for re_ in (True, False)]
 
@@ -114,10 +114,6 @@ def transitions(sty):
 CASE_ALARM_S = 90
 
 
-class CaseTimeout(BaseException):
-    """raised by the SIGALRM handler when no outermost call has returned for CASE_ALARM_S seconds of wall clock"""
-
-
 def _on_alarm(signum, frame):
     raise CaseTimeout()
 
@@ -154,7 +150,10 @@ def run_cases(ctx, mon, ncases, body, wall=None, only_case=None):
     bud = Budget(wall) if wall else None
     cases = range(ncases) if only_case is None else [only_case]
     # the alarm is a *no progress* watchdog: every returning outermost call and every oracle section re-arms it
-    mon.heartbeat = lambda: signal.alarm(CASE_ALARM_S)
+    # checks that judge termination by the deterministic step budget (C09-C11) do not need the wall clock for that:
+    # their alarm is only a last resort and long enough not to fire on a loaded machine
+    alarm_s = 900 if getattr(mon, 'budget', None) is not None and mon.budget_judged else CASE_ALARM_S
+    mon.heartbeat = lambda: signal.alarm(alarm_s)
     O.HEARTBEAT = mon.heartbeat
     for case in cases:
         if bud is not None and bud.over():
@@ -172,7 +171,7 @@ def run_cases(ctx, mon, ncases, body, wall=None, only_case=None):
         if getattr(mon, 'budget', None) is not None:
             mon.budget.start()
         try:
-            signal.alarm(CASE_ALARM_S)
+            signal.alarm(alarm_s)
             try:
                 body(rng, ex, case)
             finally:
